@@ -601,6 +601,15 @@ def case_e(ctx, member):
         except OSError:
             pass
     tool, mk = E_TOOLS[ti]
+    if tool == 'p2bin':
+        # an edited start address may describe an image of gigabytes: that much fill is legitimate work, not a hang
+        try:
+            rr = [x for x in pfile.parse(bytes(buf), strict=False) if x.kind == 'data' and x.gran]
+            if rr and max(x.start * x.gran + len(x.data) for x in rr) - min(x.start * x.gran for x in rr) > (4 << 20):
+                out.obs['p2bin_image_larger_than_4MiB_not_run'] += 1
+                return
+        except pfile.FormatError:
+            pass
     r = ctx.run(tool, mk('in.p'), timeout=12)
     out.obs['tool_runs'] += 1
     out.sets['tools'].add(tool)
